@@ -550,44 +550,71 @@ def _averaging(ctx, chk):
         chk.indeterminate("C12.O5", where_of(f, ap), "appended item is not a (series, value) pair")
         return
     val = item.elts[1]
+    from ..loops import binding as _lb
+    MEANS = ("numpy.mean", "numpy.average", "statistics.mean", "statistics.fmean")
+
+    def partner_key(b):
+        """key variable of the .items() loop / generator that binds a 'value' variable"""
+        t = b.loop.target
+        if isinstance(t, (ast.Tuple, ast.List)) and len(t.elts) == 2 and isinstance(t.elts[0], ast.Name):
+            return t.elts[0].id
+        return None
+
+    # (value expression, accumulator name, key variable that pairs with it): followed through
+    # `for k, m in {k2: mean(v2) for k2, v2 in ACC.items()}.items()`
     vex = flow.def_value(val) if isinstance(val, ast.Name) else val
-    is_mean = isinstance(vex, ast.Call) and (full_call_name(mod, vex) or "") in (
-        "numpy.mean", "numpy.average", "statistics.mean", "statistics.fmean")
-    # the argument of mean is the per-level list of this series
-    arg_ok = False
+    key_var = None
+    verdict = None          # None = not read
     desc = ast.unparse(vex)[:80] if vex is not None else ast.unparse(val)
-    if is_mean and vex.args:
+    key_used = _mapping_key(ap.func.value)
+    if vex is None and isinstance(val, ast.Name):
+        b = _lb(val)
+        if b is not None and b.kind == "value" and isinstance(b.container, (ast.Name, ast.DictComp)):
+            dv = flow.def_value(b.container) if isinstance(b.container, ast.Name) else b.container
+            kouter = partner_key(b)
+            if isinstance(dv, ast.DictComp) and len(dv.generators) == 1 and not dv.generators[0].ifs and isinstance(dv.key, ast.Name) \
+                    and isinstance(dv.generators[0].target, (ast.Tuple, ast.List)) and len(dv.generators[0].target.elts) == 2 \
+                    and isinstance(dv.generators[0].target.elts[0], ast.Name) and dv.key.id == dv.generators[0].target.elts[0].id \
+                    and key_used is not None and key_used == kouter:
+                vex = dv.value
+                desc = "%s (through %s)" % (ast.unparse(vex)[:60], ast.unparse(dv)[:50])
+                key_used = dv.key.id
+    if isinstance(vex, ast.Call) and vex.args and isinstance(vex.args[0], ast.Name):
+        fn = full_call_name(mod, vex) or ""
         arg = vex.args[0]
-        # arg must be the value variable of a loop over <acc>.items(), and the
-        # key used for the append must be the key variable of that same loop
-        loop = ap
-        while loop is not None and not (isinstance(loop, ast.For) and _iter_items(loop)):
-            loop = getattr(loop, "parent", None)
-        if loop is not None and isinstance(loop.target, ast.Tuple) and len(loop.target.elts) == 2:
-            kvar, vvar = loop.target.elts
-            acc = _iter_items(loop)
-            key_used = _mapping_key(ap.func.value)
-            if isinstance(arg, ast.Name) and isinstance(vvar, ast.Name) and arg.id == vvar.id \
-                    and isinstance(kvar, ast.Name) and key_used == kvar.id:
-                # the accumulator is filled per series from regrid's (level, position) pairs
-                fills = [c for c in ast.walk(f.node)
-                         if isinstance(c, ast.Call) and isinstance(c.func, ast.Attribute) and c.func.attr == "append"
-                         and c is not ap and _root_name(c.func.value) == acc]
-                for fc in fills:
-                    rl = fc
-                    while rl is not None and not (isinstance(rl, ast.For) and isinstance(rl.iter, ast.Call)
-                                                   and any(t.endswith("regrid.regrid") or t == "regrid.regrid" for t in ctx.cg.resolve_callee(f, rl.iter.func))):
-                        rl = getattr(rl, "parent", None)
-                    if rl is not None and isinstance(rl.target, ast.Tuple) and len(rl.target.elts) == 2:
-                        lv, ps = rl.target.elts
-                        if isinstance(lv, ast.Name) and isinstance(ps, ast.Name) and _mapping_key(fc.func.value) == lv.id \
-                                and isinstance(fc.args[0], ast.Name) and fc.args[0].id == ps.id:
-                            arg_ok = True
-    chk.ob("C12.O5", is_mean and arg_ok, where_of(f, ap),
-           "value entered per (series, level) = %s" % desc,
-           "mean of that series' crossing positions of that level",
-           key="fit_offsets|build_head_mapping|averaging",
-           why="taking the first/last/median crossing changes the master curve wherever a level is crossed repeatedly")
+        b = _lb(arg)
+        if b is not None and b.kind == "value" and isinstance(b.container, ast.Name) and partner_key(b) == key_used and key_used is not None:
+            acc = b.container.id
+            # the accumulator is filled per series from regrid's (level, position) pairs
+            fills = [c for c in ast.walk(f.node)
+                     if isinstance(c, ast.Call) and isinstance(c.func, ast.Attribute) and c.func.attr == "append"
+                     and c is not ap and _root_name(c.func.value) == acc]
+            filled = False
+            for fc in fills:
+                rl = fc
+                while rl is not None and not (isinstance(rl, ast.For) and isinstance(rl.iter, ast.Call)
+                                               and any(t.endswith("regrid.regrid") or t == "regrid.regrid" for t in ctx.cg.resolve_callee(f, rl.iter.func))):
+                    rl = getattr(rl, "parent", None)
+                if rl is not None and isinstance(rl.target, ast.Tuple) and len(rl.target.elts) == 2:
+                    lv, ps = rl.target.elts
+                    if isinstance(lv, ast.Name) and isinstance(ps, ast.Name) and _mapping_key(fc.func.value) == lv.id \
+                            and isinstance(fc.args[0], ast.Name) and fc.args[0].id == ps.id:
+                        filled = True
+            if filled:
+                # the per-level list of this series' crossing positions is reduced by `fn`
+                verdict = fn in MEANS
+    elif isinstance(vex, ast.Subscript) and isinstance(vex.value, ast.Name):
+        b = _lb(vex.value)
+        if b is not None and b.kind == "value" and partner_key(b) == key_used and key_used is not None:
+            verdict = False          # one element of the list instead of its mean
+    if verdict is None:
+        chk.indeterminate("C12.O5", where_of(f, ap), "value entered per (series, level) = %s: not traced to the list of that series' crossings of that level" % desc)
+    else:
+        chk.ob("C12.O5", verdict, where_of(f, ap),
+               "value entered per (series, level) = %s" % desc,
+               "mean of that series' crossing positions of that level",
+               key="fit_offsets|build_head_mapping|averaging",
+               why="taking the first/last/median crossing changes the master curve wherever a level is crossed repeatedly")
     # series id in the pair is the enumerate index of the series loop
     sid = item.elts[0]
     sl = ap
